@@ -10,6 +10,7 @@
 """
 Python equivalents of Lookup and Reference library functions
 """
+import math
 from bisect import bisect_right
 
 import numpy as np
@@ -213,6 +214,7 @@ def hlookup(lookup_value, table_array, row_index_num, range_lookup=True):
     if not list_like(table_array):
         return NA_ERROR
 
+    row_index_num = int(row_index_num)
     if row_index_num <= 0:
         return VALUE_ERROR
 
@@ -253,6 +255,10 @@ def index(array, row_num, col_num=None):
         ref_addr = array[0][0].address_at_offset
     else:
         ref_addr = None
+
+    # a fractional position is truncated (and stays negative if it was)
+    row_num = row_num and math.floor(row_num)
+    col_num = col_num and math.floor(col_num)
 
     def array_data(row, col):
         if ref_addr:
@@ -485,6 +491,7 @@ def vlookup(lookup_value, table_array, col_index_num, range_lookup=True):
     if not list_like(table_array):
         return NA_ERROR
 
+    col_index_num = int(col_index_num)
     if col_index_num <= 0:
         return '#VALUE!'
 
